@@ -9,6 +9,12 @@ convenience functions are compared with the model's `applyRow` / `spatialGradien
 Oracle (independent of the model): constants -> 0 for every variant; moment-corrected gradient of a
 random affine field = its slope at every vertex whose neighbourhood spans space (exact rank test on the
 generator's rational coordinates); convenience function = explicit matrices applied by hand.
+
+Stream `order1` (second-order meshes differentiated on their first-order vertices, `order1_only=True`): tet2 (and hex2
+without volume weighting: femio has no hex2 volume) meshes whose corner and mid-edge nodes are interleaved in storage.
+The graph vertices are the corner nodes in storage order (own computation from the connectivity, not femio's filter);
+fields are given on ALL nodes, as the convenience function expects them; the explicit matrices are applied by hand to
+the corner rows.  The model is fed the first-order sub-problem (corner nodes, corner connectivity).
 """
 import itertools
 from fractions import Fraction as F
@@ -31,7 +37,11 @@ RULE = ('conforming tet / hex bricks (1..2 or 1..3 cells per direction, optional
         'random alpha) x consider_volume x use_effective_volume x moment_matrix; fields: constants of random magnitude, '
         'random affine fields, random fields (convenience clause). A case is non-trivial when the graph has at least '
         'one vertex with >= 3 neighbours; distinct = distinct (mesh, options). Vertices whose neighbourhood does not '
-        'span space (exact rank < 3) are outside the exactness clause and are counted in a separate stream.')
+        'span space (exact rank < 3) are outside the exactness clause and are counted in a separate stream. '
+        'Stream order1: the same tet / hex bricks promoted to tet2 / hex2 (straight mid-edge nodes, own ids, node table '
+        'shuffled so that corner and mid-edge nodes are interleaved; non-trivial only when they are), nodal mode with '
+        'order1_only=True, fields defined on all nodes; tet2 with effective-volume weighting or none, hex2 without '
+        'volume weighting.')
 ASSUMPTIONS = [
     'floating point: the real matrices are compared with the exact rational model within 1e-9 * max(1, cond(M)) * '
     'scale (np.linalg.inv / sqrt / exp accuracy is runtime, not modelled)',
@@ -44,6 +54,64 @@ TRUSTED = ['C15: capture of volume_adj / kernel matrix by wrapping calculate_dat
            'on the instance']
 
 KERNELS = [None, 'exp', 'gauss']
+
+# second-order types handled by the order1 stream: first-order type, number of corner nodes
+FIRST_ORDER = {'tet2': ('tet', 4), 'hex2': ('hex', 8)}
+HEX_EDGES = [(0, 1), (1, 2), (2, 3), (3, 0), (4, 5), (5, 6), (6, 7), (7, 4), (0, 4), (1, 5), (2, 6), (3, 7)]
+
+
+def promote_hex2(rnd, m):
+    """replace every hex by a hex2 with straight mid-edge nodes (new ids, shared per edge); node table shuffled"""
+    pos = dict(m['nodes'])
+    nxt = max(pos) + 1
+    mid = {}
+    rows = []
+    for e, c in m['blocks']['hex']:
+        extra = []
+        for a, b in HEX_EDGES:
+            k = frozenset((c[a], c[b]))
+            if k not in mid:
+                mid[k] = nxt + rnd.randint(0, 3)
+                nxt = mid[k] + 1
+                pos[mid[k]] = tuple((x + y) / 2 for x, y in zip(pos[c[a]], pos[c[b]]))
+            extra.append(mid[k])
+        rows.append((e, list(c) + extra))
+    new_nodes = list(m['nodes']) + [(i, pos[i]) for i in mid.values()]
+    rnd.shuffle(new_nodes)
+    out = dict(m)
+    out.update(nodes=new_nodes, blocks={'hex2': rows}, kind='hex2', order='shuf')
+    return out
+
+
+def corner_ids(m):
+    return {n for t, b in m['blocks'].items() for _, c in b for n in c[:FIRST_ORDER.get(t, (t, len(c)))[1]]}
+
+
+def graph_mesh(m, opt):
+    """the mesh whose graph the operator lives on: the mesh itself, or (order1) its first-order sub-problem =
+    corner nodes in storage order + corner connectivity"""
+    if not opt.get('order1'):
+        return m
+    cs = corner_ids(m)
+    out = dict(m)
+    out.update(nodes=[(i, p) for i, p in m['nodes'] if i in cs],
+               blocks={FIRST_ORDER.get(t, (t, None))[0]: [(e, list(c[:FIRST_ORDER.get(t, (t, len(c)))[1]])) for e, c in b]
+                       for t, b in m['blocks'].items()})
+    return out
+
+
+def carriers(m, opt):
+    """(float positions of every row the convenience function expects data for, bool mask of the graph vertices)"""
+    if opt['mode'] != 'nodal' or not opt.get('order1'):
+        P = np.array([[float(x) for x in p] for p in positions_exact(m, opt['mode'])])
+        return P, np.ones(len(P), bool)
+    cs = corner_ids(m)
+    return (np.array([[float(x) for x in p] for _, p in m['nodes']]), np.array([i in cs for i, _ in m['nodes']]))
+
+
+def nhop(fd, opt):
+    kw = {'order1_only': True} if opt.get('order1') else {}
+    return MG.quiet(fd.calculate_n_hop_adj, mode=opt['mode'], n_hop=opt['n_hop'], include_self_loop=False, **kw)
 
 
 # ------------------------------------------------------------------ real side
@@ -71,7 +139,7 @@ def real_matrices(fd, opt):
         del fd.calculate_distance_kernel_adj
         del fd.calculate_data_adjs
     n = g[0].shape[0]
-    adj = MG.quiet(fd.calculate_n_hop_adj, mode=opt['mode'], n_hop=opt['n_hop'], include_self_loop=False).tocoo()
+    adj = nhop(fd, opt).tocoo()
     vol = [r for s, r in cap['d'] if len(s) == 2 and s[1] == 1]
     if opt['consider_volume'] and vol:
         v = vol[-1][0].tocoo()
@@ -99,6 +167,8 @@ def call_kwargs(opt):
         kw['use_effective_volume'] = opt['effective']
     if opt['kernel'] is not None:
         kw['alpha'] = opt['alpha']
+    if opt.get('order1'):
+        kw['order1_only'] = True
     return kw
 
 
@@ -141,8 +211,8 @@ def rank3(vs):
 
 def spanning_flags(fd, m, opt):
     """per vertex: do the difference vectors to the real n-hop neighbours span space (exact)"""
-    adj = MG.quiet(fd.calculate_n_hop_adj, mode=opt['mode'], n_hop=opt['n_hop'], include_self_loop=False).tocsr()
-    P = positions_exact(m, opt['mode'])
+    adj = nhop(fd, opt).tocsr()
+    P = positions_exact(graph_mesh(m, opt), opt['mode'])
     out = []
     for i in range(adj.shape[0]):
         js = [int(j) for j, x in zip(adj.indices[adj.indptr[i]:adj.indptr[i + 1]], adj.data[adj.indptr[i]:adj.indptr[i + 1]])
@@ -177,7 +247,12 @@ def oracle(ctx, m, opt, fields, fd=None, record=True):
         return fails, {'singular': True, 'raised': type(e).__name__}
     G = dense3(g)
     n = G.shape[1]
-    P = np.array([[float(x) for x in p] for p in positions_exact(m, opt['mode'])])
+    P_all, sel = carriers(m, opt)        # rows the convenience function takes data for; which of them are graph vertices
+    P = P_all[sel]
+    n_all = len(P_all)
+    if n != len(P):
+        fails.append((f'shape:{opt["mode"]}', f'operator has {n} rows for {len(P)} graph vertices', {'n': n, 'vertices': len(P)}))
+        return fails, {'n': n, 'span_all': bool(all(span)), 'n_nonspanning': 0, 'max_cond': 1.0}
     finite_rows = np.isfinite(G).all(axis=(0, 2))
     inscope = np.array([(s or not opt['moment']) for s in span]) & finite_rows
     if not opt['moment']:
@@ -196,18 +271,20 @@ def oracle(ctx, m, opt, fields, fd=None, record=True):
                       {'rows': np.where(~finite_rows)[0].tolist()[:5]}))
     for fld in fields:
         if fld['kind'] == 'const':
-            data = np.full((n, 1), fld['c'])
+            data = np.full((n_all, 1), fld['c'])
             scale = abs(fld['c'])
             want = np.zeros((n, 3))
         elif fld['kind'] == 'affine':
             a = np.array(fld['a'])
-            data = (P @ a + fld['b'])[:, None]
+            data = (P_all @ a + fld['b'])[:, None]
             scale = float(np.abs(data).max())
             want = np.tile(a, (n, 1))
         else:
             continue
-        byhand = np.stack([x.dot(data) for x in g], axis=1)[:, :, 0]
+        byhand = np.stack([x.dot(data[sel]) for x in g], axis=1)[:, :, 0]
         conv = conv_call(fd, opt, data)[:, :, 0]
+        if conv.shape != byhand.shape:
+            break          # reported by the convenience clause below
         tol = 1e-9 * cond * np.maximum(rowabs, 1e-300) * max(scale, 1e-300)
         if fld['kind'] == 'affine' and not opt['moment']:
             continue          # the uncorrected operator is not claimed to be exact
@@ -223,8 +300,8 @@ def oracle(ctx, m, opt, fields, fd=None, record=True):
                 break
     # clause 3: convenience = explicit matrices by hand, any field
     rng = np.random.default_rng(opt.get('fseed', 0))
-    data = rng.normal(size=(n, 2)) * 10
-    byhand = np.stack([x.dot(data) for x in g], axis=1)
+    data = rng.normal(size=(n_all, 2)) * 10
+    byhand = np.stack([x.dot(data[sel]) for x in g], axis=1)
     conv = conv_call(fd, opt, data)
     ok = conv.shape == byhand.shape and np.all((np.abs(conv - byhand) <= 1e-12 * (1 + np.abs(byhand))) | ~np.isfinite(byhand))
     if not ok:
@@ -238,7 +315,8 @@ def oracle(ctx, m, opt, fields, fd=None, record=True):
 
 def model_case(ctx, m, opt, fd, g, W, fields_cols):
     nodal = opt['mode'] == 'nodal'
-    toks = ['c15.op', '1' if nodal else '0', str(opt['n_hop']), '1' if opt['moment'] else '0', MG.enc_mesh(m)]
+    toks = ['c15.op', '1' if nodal else '0', str(opt['n_hop']), '1' if opt['moment'] else '0',
+            MG.enc_mesh(graph_mesh(m, opt))]
     toks.append(str(len(W)))
     for (i, j), v in sorted(W.items()):
         toks += [str(i), str(j), C.enc_rat(v)]
@@ -272,17 +350,21 @@ def correspond(ctx, m, opt, fd, fields, caseinfo):
     except Exception:
         ctx.count('stream:real-raised')
         return
-    P = np.array([[float(x) for x in p] for p in positions_exact(m, opt['mode'])])
-    cols, colsf = [], []
+    P_all, sel = carriers(m, opt)
+    if int(sel.sum()) != n:
+        ctx.disagree('vertex count (operator rows vs graph vertices of the generated mesh)', caseinfo, n, int(sel.sum()))
+        return
+    cols, colsf, cols_all = [], [], []
     for fld in fields:
         if fld['kind'] == 'const':
-            c = np.full(n, fld['c'])
+            c = np.full(len(P_all), fld['c'])
         elif fld['kind'] == 'affine':
-            c = P @ np.array(fld['a']) + fld['b']
+            c = P_all @ np.array(fld['a']) + fld['b']
         else:
-            c = np.random.default_rng(fld['seed']).normal(size=n) * 10
-        cols.append([float(x) for x in c])
-        colsf.append(c)
+            c = np.random.default_rng(fld['seed']).normal(size=len(P_all)) * 10
+        cols_all.append(c)                             # what the convenience function is given (all rows)
+        cols.append([float(x) for x in c[sel]])        # what the model is given (graph vertices)
+        colsf.append(c[sel])
     mod, raw = model_case(ctx, m, opt, fd, g, W, cols)
     if mod is None:
         ctx.disagree('model rejected the case', caseinfo, 'ok', raw)
@@ -329,8 +411,11 @@ def correspond(ctx, m, opt, fd, fields, caseinfo):
     ctx.count('compared:matrix-rows', int(ok_rows.sum()))
     ctx.count('compared:matrix-entries', int((Mg != 0).any(axis=0)[ok_rows].sum()) * 3)
     # convenience function vs the model's applyRow
-    data = np.stack(colsf, axis=1)
+    data = np.stack(cols_all, axis=1)
     conv = conv_call(fd, opt, data)            # (n, 3, f)
+    if conv.shape != (n, 3, len(fields)):
+        ctx.disagree('convenience function shape', caseinfo, list(conv.shape), [n, 3, len(fields)])
+        return
     for k, fld in enumerate(fields):
         mg = np.array(mod['grads'][k])
         fs = max(float(np.abs(colsf[k]).max()), 1e-300)
@@ -348,7 +433,7 @@ def correspond(ctx, m, opt, fd, fields, caseinfo):
     # literal evaluation of the model's convenience function on small cases
     if n <= 14 and ctx.rng.random() < .5:
         toks = ['c15.conv', '1' if opt['mode'] == 'nodal' else '0', str(opt['n_hop']), '1' if opt['moment'] else '0',
-                MG.enc_mesh(m), str(len(W))]
+                MG.enc_mesh(graph_mesh(m, opt)), str(len(W))]
         for (i, j), v in sorted(W.items()):
             toks += [str(i), str(j), C.enc_rat(v)]
         toks.append(C.enc_list(cols[-1], C.enc_rat))
@@ -387,6 +472,39 @@ def gen_opts(ctx, combos):
                'alpha': rnd.choice([1.0, 0.5, 2.0, 0.125]), 'fseed': rnd.randint(0, 10**6)}
 
 
+def one_case(ctx, m, opt, fields):
+    desc = MG.describe(m)
+    caseinfo = {'mesh': MG.to_json(m), 'opt': opt, 'fields': fields}
+    short = {'mesh': desc, 'opt': opt}
+    fd = fresh(m)
+    fails, info = oracle(ctx, m, opt, fields, fd=fd)
+    nontrivial = info.get('n', 0) >= 4
+    if opt.get('order1'):
+        # distinct from the first-order stream only when a mid-edge node is stored before some corner node
+        _, sel = carriers(m, opt)
+        inter = not sel[:int(sel.sum())].all()
+        ctx.count('order1:storage:' + ('corner-and-mid-edge-nodes-interleaved' if inter else 'corner-nodes-first'))
+        ctx.count(f'stream:order1:{m["kind"]}')
+        nontrivial = nontrivial and inter
+    ctx.case((repr(MG.to_json(m)), repr(sorted(opt.items()))), sample={**short, 'info': info}, nontrivial=nontrivial)
+    ctx.count(f'mesh:{m["kind"]}')
+    ctx.count(f'ids:{m["order"]}')
+    ctx.count(f'mode:{opt["mode"]}')
+    ctx.count(f'n_hop:{opt["n_hop"]}')
+    ctx.count(f'kernel:{opt["kernel"]}')
+    ctx.count(f'moment:{opt["moment"]}')
+    ctx.count(f'consider_volume:{opt["consider_volume"]}')
+    ctx.count('geometry:' + ('jittered' if m.get('jittered') else 'affine' if m.get('affine') else 'grid'))
+    if info.get('singular'):
+        ctx.count(f'stream:non-spanning(real raised {info.get("raised")})')
+    elif opt['moment']:
+        ctx.count('stream:all-vertices-spanning' if info['span_all'] else 'stream:some-vertices-non-spanning')
+    for sig, what, obs in fails:
+        ctx.fail(sig, what, caseinfo, obs)
+    if ctx.driver is not None and not info.get('singular'):
+        correspond(ctx, m, opt, fresh(m), fields, short if not fails else caseinfo)
+
+
 def run(ctx):
     rnd = ctx.rng
     combos = list(itertools.product(['nodal', 'elemental'], [1, 2, 3], KERNELS, [True, False]))   # 36
@@ -401,30 +519,31 @@ def run(ctx):
                 big = (not ctx.quick and rnd.random() < .4) or (opt['mode'] == 'elemental' and kind == 'hex')
                 m = gen_mesh(ctx, kind, big)
                 n_meshes += 1
-            fields = gen_fields(rnd)
-            desc = MG.describe(m)
-            caseinfo = {'mesh': MG.to_json(m), 'opt': opt, 'fields': fields}
-            short = {'mesh': desc, 'opt': opt}
-            fd = fresh(m)
-            fails, info = oracle(ctx, m, opt, fields, fd=fd)
-            ctx.case((repr(MG.to_json(m)), repr(sorted(opt.items()))), sample={**short, 'info': info},
-                     nontrivial=info.get('n', 0) >= 4)
-            ctx.count(f'mesh:{m["kind"]}')
-            ctx.count(f'ids:{m["order"]}')
-            ctx.count(f'mode:{opt["mode"]}')
-            ctx.count(f'n_hop:{opt["n_hop"]}')
-            ctx.count(f'kernel:{opt["kernel"]}')
-            ctx.count(f'moment:{opt["moment"]}')
-            ctx.count(f'consider_volume:{opt["consider_volume"]}')
-            ctx.count('geometry:' + ('jittered' if m.get('jittered') else 'affine' if m.get('affine') else 'grid'))
-            if info.get('singular'):
-                ctx.count(f'stream:non-spanning(real raised {info.get("raised")})')
-            elif opt['moment']:
-                ctx.count('stream:all-vertices-spanning' if info['span_all'] else 'stream:some-vertices-non-spanning')
-            for sig, what, obs in fails:
-                ctx.fail(sig, what, caseinfo, obs)
-            if ctx.driver is not None and not info.get('singular'):
-                correspond(ctx, m, opt, fresh(m), fields, short if not fails else caseinfo)
+            one_case(ctx, m, opt, gen_fields(rnd))
+    # stream order1: second-order meshes differentiated on their first-order vertices (order1_only=True); drawn after
+    # the main stream so that the main stream's cases do not depend on it
+    o1 = list(itertools.product([1, 2, 3], KERNELS, [True, True, False]))        # 27, moment-corrected twice as often
+    for rep in range(ctx.n(1, 3)):
+        rnd.shuffle(o1)
+        for k, (n_hop, kernel, moment) in enumerate(o1[:ctx.n(15, 27)]):
+            if k % 3 == 0:
+                if (k // 3 + rep) % 3 == 2:
+                    m = promote_hex2(rnd, gen_mesh(ctx, 'hex', False))
+                else:
+                    m = last_tet2 = MG.promote_tet2(rnd, gen_mesh(ctx, 'tet', False))
+                n_meshes += 1
+            # tet2: effective-volume weighting or none (see the probe below); hex2: femio has no hex2 volume
+            opt = {'mode': 'nodal', 'n_hop': n_hop, 'kernel': kernel, 'moment': moment, 'order1': True,
+                   'consider_volume': m['kind'] == 'tet2' and rnd.random() < .5, 'effective': True,
+                   'alpha': rnd.choice([1.0, 0.5, 2.0, 0.125]), 'fseed': rnd.randint(0, 10**6)}
+            one_case(ctx, m, opt, gen_fields(rnd))
+    # observation stream (never reported through fail): order1_only with mean-volume weighting on a second-order mesh
+    try:
+        MG.quiet(fresh(last_tet2).calculate_spatial_gradient_adjacency_matrices, mode='nodal', order1_only=True,
+                 consider_volume=True, use_effective_volume=False)
+        ctx.count('stream:order1-mean-volume(observation only):ok')
+    except Exception as e:
+        ctx.count(f'stream:order1-mean-volume(observation only):real raised {type(e).__name__}')
     ctx.extra['meshes'] = n_meshes
 
 
